@@ -17,7 +17,8 @@ def replay(path):
     if scen is None:
         print(f"replay: scenario {d['scenario']} has no native form (ghost lemma); solver output is in the file")
         return 0
-    M = NativeMode(d["inputs"])
+    tol = (d.get("detail") or {}).get("tolerance")
+    M = NativeMode(d["inputs"], tol=1e-9 if tol is None else float(tol))
     exc = None
     try:
         scen(M, **d["params"])
